@@ -44,6 +44,9 @@ def run(modname, tier, seed, procs=None):
 
 
 def report(P, modname):
+    if os.environ.get('VERIF_SKIP_B') == '1':          # development aid only
+        P.notes.append('Layer B skipped (VERIF_SKIP_B=1)')
+        return {}
     merged, rules, exh = run(modname, P.tier, P.seed)
     for check in sorted(merged):
         m = merged[check]
